@@ -1,6 +1,7 @@
 package main
 
 import (
+	"encoding/hex"
 	"encoding/json"
 	"errors"
 	"fmt"
@@ -347,7 +348,45 @@ func parseVS(s string) (VS, bool) {
 	if err := json.Unmarshal([]byte(s), &v); err != nil {
 		return v, false
 	}
-	return v, true
+	budget := 20000
+	return v, wellFormedVS(&v, &budget)
+}
+
+// wellFormedVS: the description can be built (hex fields decode, map keys pair with values,
+// pointers have a pointee, bounded size) — a malformed *description* is not an input of dapr/kit.
+func wellFormedVS(v *VS, budget *int) bool {
+	*budget--
+	if *budget < 0 {
+		return false
+	}
+	switch v.T {
+	case "s", "by":
+		if _, err := hex.DecodeString(v.V); err != nil {
+			return false
+		}
+	case "p":
+		if v.E == nil {
+			return false
+		}
+	case "m", "ms", "mi", "mis", "st":
+		if len(v.K) != len(v.L) {
+			return false
+		}
+	}
+	if v.E != nil && !wellFormedVS(v.E, budget) {
+		return false
+	}
+	for i := range v.L {
+		if !wellFormedVS(&v.L[i], budget) {
+			return false
+		}
+	}
+	for i := range v.K {
+		if !wellFormedVS(&v.K[i], budget) {
+			return false
+		}
+	}
+	return true
 }
 
 func registerMeta() {
